@@ -116,10 +116,10 @@ def ensure_facts(config="default", repo=None):
         shutil.rmtree(fdir, ignore_errors=True)
         os.rename(tmp, fdir)
         log("[engine] facts ready in %.1fs -> %s" % (time.time() - t0, fdir))
-        # keep the cache small: drop all but the 12 most recent fact sets
+        # keep the cache small: drop all but the 40 most recent fact sets
         root = os.path.join(CACHE, "facts")
         sets = sorted((os.path.getmtime(os.path.join(root, d)), d) for d in os.listdir(root))
-        for _, d in sets[:-12]:
+        for _, d in sets[:-40]:
             shutil.rmtree(os.path.join(root, d), ignore_errors=True)
         return fdir
     finally:
